@@ -257,4 +257,75 @@ example : ((run (init demoTags) (demoOps ++ [.stop, .startLow, .row ['3'], .stop
 example : (run (init demoTags) [.mark 1 ['x'], .start, .row ['1']]).log =
     [[timeHeader, "F [L/h]".toList, ['M']], [['1'], [], []]] := by decide +kernel
 
+/-! ## Runs whose tag collection differs from the previous run's
+
+`ArchiverTag.on_start` asks its `tags_accessor` anew at every start, so a later run on the same archiver may
+work on other tags, in another order, with the column-less archiver tag elsewhere.  `State` has one tag list;
+replacing it while no run is active (after `on_stop`) is the model of that.  A run depends only on the per-run
+part of the state and `on_stop` resets that part, hence the run after a change of collection *is* the run of a
+fresh archiver over the new tags: every file it leaves has the new header's columns and reads back exactly. -/
+
+/-- The part of the archiver's state a run works on (everything but the files already finished). -/
+def core (s : State) : List Tag × Bool × Bool × List Char × List Row :=
+  (s.tags, s.fileExists, s.fileReady, s.file, s.log)
+
+theorem step_frame (s s' : State) (op : Op) (h : core s = core s') :
+    core (stepOp s op) = core (stepOp s' op) ∧
+    ∃ new, (stepOp s op).finished = s.finished ++ new ∧ (stepOp s' op).finished = s'.finished ++ new := by
+  obtain ⟨t, fe, fr, f, l, fin, lr⟩ := s
+  obtain ⟨t', fe', fr', f', l', fin', lr'⟩ := s'
+  simp only [core, Prod.mk.injEq] at h
+  obtain ⟨rfl, rfl, rfl, rfl, rfl⟩ := h
+  cases op
+  case stop => exact ⟨by simp [stepOp, core], if fe then [(f, l)] else [], rfl, rfl⟩
+  all_goals
+    simp only [stepOp, core] <;> (try split) <;> (try split) <;>
+    first
+    | exact ⟨rfl, [], by simp⟩
+    | exact ⟨trivial, [], by simp⟩
+    | (refine ⟨by simp, [], by simp⟩)
+
+theorem run_frame (ops : List Op) (s s' : State) (h : core s = core s') :
+    core (run s ops) = core (run s' ops) ∧
+    ∃ new, (run s ops).finished = s.finished ++ new ∧ (run s' ops).finished = s'.finished ++ new := by
+  induction ops generalizing s s' with
+  | nil => exact ⟨h, [], by simp [run]⟩
+  | cons op ops ih =>
+    obtain ⟨h1, n1, e1, e1'⟩ := step_frame s s' op h
+    obtain ⟨h2, n2, e2, e2'⟩ := ih (stepOp s op) (stepOp s' op) h1
+    refine ⟨by simpa [run] using h2, n1 ++ n2, ?_, ?_⟩
+    · have : run s (op :: ops) = run (stepOp s op) ops := rfl
+      rw [this, e2, e1, List.append_assoc]
+    · have : run s' (op :: ops) = run (stepOp s' op) ops := rfl
+      rw [this, e2', e1', List.append_assoc]
+
+/-- `on_stop` leaves nothing of the run behind but its finished file: with another tag list put in place, the
+    per-run state is that of a new archiver over those tags. -/
+theorem stop_then_retag_is_fresh (s : State) (tags' : List Tag) :
+    core { stepOp s .stop with tags := tags' } = core (init tags') := by
+  simp [core, stepOp, init]
+
+/-- **A later run over a changed collection.** After any state `s`, Stop, a different tag list `tags'` and any
+    further history: every archive file left behind is either one that was already finished at the Stop, or it
+    reads back exactly, starts with a header and every row has one column per column-bearing tag of the NEW list
+    (+ time).  Nothing of the previous collection (its size, the positions of its column-less tags) plays a part. -/
+theorem changed_collection_run (s : State) (tags' : List Tag) (ops : List Op) (file : List Char) (log : List Row)
+    (h : (file, log) ∈ (run { stepOp s .stop with tags := tags' } ops).finished) :
+    (file, log) ∈ (stepOp s .stop).finished ∨
+    (readFile file = .ok log ∧ log ≠ [] ∧ ∀ r ∈ log, r.length = 1 + columns tags') := by
+  obtain ⟨_, new, e, e'⟩ := run_frame ops _ _ (stop_then_retag_is_fresh s tags')
+  rw [e] at h
+  rcases List.mem_append.mp h with h | h
+  · exact Or.inl h
+  · refine Or.inr (finished_archives_read_back tags' ops file log ?_)
+    rw [e']; simpa [init] using h
+
+/-- Non-vacuity: the second run has the archiver tag first and one tag more; its file has the new header. -/
+example :
+    let s := run (init demoTags) demoOps
+    let tags' : List Tag := [{ kind := .skipped, name := ['A'] }, { kind := .plain, name := ['G'] },
+                             { kind := .mark, name := ['M'] }, { kind := .plain, name := ['H'] }]
+    ((run { stepOp s .stop with tags := tags' } [.start, .set 1 (.int 3), .row ['9'], .stop]).finished.map
+      (fun f => f.2.map (·.length))) = [[3, 3, 3], [4, 4]] := by decide +kernel
+
 end OPM.C39
